@@ -226,6 +226,23 @@ def run_case(case, salt, ctx="plain", isolate=True):
             continue
         if not field_equal(p["kind"], got, p["value"]):
             out.append((f"roundtrip:field-differs:{fkey(p['desc'])}", f"{label}: rebuilt.{p['py']} = {U.short(got)}, original {U.short(p['value'])}"))
+    # the same dictionary rebuilt into previously used memory (a buffer whose bytes are not zero): what the dictionary omits
+    # must come from the declared / natural defaults, not from whatever the memory held
+    try:
+        import xobjects as xo
+        dbuf = xo.ContextCpu().new_buffer(capacity=1 << 14)
+        np.frombuffer(dbuf.buffer, dtype="uint8")[:] = 0xA5
+        y2 = cls.from_dict(d, _buffer=dbuf)
+        for p in plans:
+            try:
+                got = getattr(y2, p["py"])
+            except Exception as ex:
+                out.append((f"roundtrip:unreadable:{fkey(p['desc'])}:used-memory", f"{label}: rebuilt into used memory: .{p['py']} raised {type(ex).__name__}"))
+                continue
+            if not field_equal(p["kind"], got, p["value"]):
+                out.append((f"roundtrip:field-differs:{fkey(p['desc'])}:used-memory", f"{label}: rebuilt into used memory: .{p['py']} = {U.short(got)}, original {U.short(p['value'])}"))
+    except Exception as ex:
+        out.append((f"roundtrip:from_dict-raised:{type(ex).__name__}:used-memory", f"{label}: from_dict(to_dict(x), _buffer=used memory) raised {type(ex).__name__}: {ex}"))
     seen, res = set(), []
     for k, dsc in out:
         if k not in seen:
